@@ -122,14 +122,20 @@ def extract_iter(
         ):
             origin, current, depth = to_unwrap.popleft()
             if isinstance(current, types.FrameType):
-                if not isinstance(
-                    origin,
-                    (
-                        types.CoroutineType,
-                        types.GeneratorType,
-                        types.AsyncGeneratorType,
-                    ),
-                ):
+                # A frame's origin is the generator-like object that it
+                # belongs to, if any. (If we got here by unwrapping a running
+                # coroutine or generator, then the frames of the functions it
+                # has called are in the same series, but they don't have it
+                # as their origin: extract_outermost(origin) wouldn't find them.)
+                if isinstance(origin, types.CoroutineType):
+                    own_frame = origin.cr_frame
+                elif isinstance(origin, types.GeneratorType):
+                    own_frame = origin.gi_frame
+                elif isinstance(origin, types.AsyncGeneratorType):
+                    own_frame = origin.ag_frame
+                else:
+                    own_frame = None
+                if own_frame is not current:
                     origin = None
                 current = Frame(pyframe=current, origin=origin)
             if isinstance(current, Frame):
